@@ -381,7 +381,7 @@ func main() {
 		p := new(big.Int).Mul(bi(840), new(big.Int).SetBytes(c.Rng.Bytes(c.Rng.Range(1, 255))))
 		gpBatch(p.Add(p, bi(r)))
 	}
-	for i := 0; i < c.N(20, 2000); i++ {
+	for i := 0; i < c.N(20, 300); i++ {
 		p := new(big.Int).SetBytes(c.Rng.Bytes(c.Rng.Range(1, 256)))
 		gpOne([]int{-7, -1, 0, 1, 2, 3, 4, 5, 6, 7, 8, 9, 10, 1 << 20, 1 << 40}[c.Rng.Intn(15)], p)
 	}
@@ -447,7 +447,7 @@ func main() {
 			}
 		}
 	}
-	for k := 0; k < c.N(4, 60); k++ {
+	for k := 0; k < c.N(4, 24); k++ {
 		b := c.Rng.Bytes(256)
 		b[0] |= 0x80
 		dhOne("random-2048-bit", c.Rng.Range(2, 7), new(big.Int).SetBytes(b))
@@ -470,7 +470,7 @@ func main() {
 		return items
 	}
 	dpBatch("tg-prime", tg, mkItems())
-	for k := 0; k < c.N(2, 40); k++ {
+	for k := 0; k < c.N(2, 10); k++ {
 		b := c.Rng.Bytes(256)
 		b[0] |= 0x80
 		dpBatch("random-2048-bit", new(big.Int).SetBytes(b), mkItems())
